@@ -180,13 +180,13 @@ func runSeq(st *Store, sid *int, hist []Delivery, pred *string) []Obs {
 	var out []Obs
 	for _, d := range hist {
 		*sid++
-		sess := &Session{ID: *sid, Store: st, Fault: d.Fault}
+		sess := &Session{ID: *sid, Store: st, Fault: d.Fault, FaultedKind: -1}
 		xid, b := keyName(d.Key)
 		if d.Drv && drvDecided(st.Status(xid, b), d.Phase) && *pred == "" {
 			*pred = "fence.drivermode.decided-without-business"
 		}
 		ec, det := guarded(sess, d.Phase, d.Key, d.Drv)
-		if d.Drv && ec == 1 && len(sess.Trace) > 0 && sess.Trace[len(sess.Trace)-1] == OpCommit && *pred == "" {
+		if d.Drv && sess.FaultedKind == OpCommit && *pred == "" {
 			*pred = "fence.drivermode.fault-at-commit"
 		}
 		if sess.Misuse != "" && det == "" {
@@ -225,7 +225,7 @@ func runRace(st *Store, sid *int, key int, r *Race) ([]Obs, string) {
 	for t := 0; t < 2; t++ {
 		*sid++
 		t := t
-		sess[t] = &Session{ID: *sid, Store: st, Fault: -1, Visible: raceVisible,
+		sess[t] = &Session{ID: *sid, Store: st, Fault: -1, FaultedKind: -1, Visible: raceVisible,
 			Gate: func(s *Session, kind int, k *fkey) {
 				events <- event{tid: t, kind: kind, key: k}
 				<-grants[t]
